@@ -76,8 +76,13 @@ def part_a(ctx, rnd):
         scns, _ = ctx.gen(SD, "NodeSize", "Gen_NodeSize.cfg", timeout=900, label="(a) input emission")
     if not scns:
         raise vlib.InfraError("NodeSize Gen emitted nothing")
+    ctx.extra["a_inputs_emitted"] = len(scns)
+    if not ctx.thorough and len(scns) > 8000:
+        # quick tier: a seeded sample of the emitted inputs (the thorough tier runs all of them)
+        rnd.shuffle(scns)
+        scns = sorted(scns[:8000], key=lambda s: s["id"])
     nmodel = len(scns)
-    nrand = 20000 if ctx.thorough else 3000
+    nrand = 20000 if ctx.thorough else 1500
     for i in range(nrand):
         scns.append(rand_nodesize(rnd, 2 * 10 ** 7 + i))
     for s in scns:
@@ -144,7 +149,7 @@ def part_b(ctx, rnd):
             s["id"] += 10 ** 7
         scns += s2
     else:
-        ctx.tlc(SD, "RunQueue", "MC_RunQueue.cfg", timeout=900, label="(b) exhaustive: refinement, <= 3 containers")
+        ctx.tlc(SD, "RunQueue", "MC_RunQueue.cfg", timeout=900, label="(b) exhaustive: refinement, <= 2 containers, full pool")
         scns, _ = ctx.gen(SD, "RunQueue", "Gen_RunQueue.cfg", timeout=900, label="(b) snapshot emission <= 2 containers")
     if not scns:
         raise vlib.InfraError("RunQueue Gen emitted nothing")
@@ -157,8 +162,12 @@ def part_b(ctx, rnd):
                 s["ready"].append({"at": k, "t": e["t"]})
             else:
                 k += 1
+    ctx.extra["b_snapshots_emitted"] = len(scns)
+    if not ctx.thorough and len(scns) > 8000:
+        rnd.shuffle(scns)
+        scns = sorted(scns[:8000], key=lambda s: s["id"])
     nmodel = len(scns)
-    nrand = 30000 if ctx.thorough else 4000
+    nrand = 30000 if ctx.thorough else 2000
     for i in range(nrand):
         scns.append(rand_runqueue(rnd, 2 * 10 ** 7 + i))
     by_id = {s["id"]: s for s in scns}
